@@ -40,6 +40,9 @@ Readings (the weaker one where the statement leaves a choice):
   * a failed solve only has to give min-length rows; horizon+1 is demanded after a successful one,
     and only while the solver's holder is as the solver left it (after a user stored / deleted a
     series, "one row per period up to the shortest series" is what is demanded).
+  * an initial condition on a name that has no equation is tolerated by the library (ignored); the spec
+    says it stores no series.  If it did, the clause that fails is the one the statement has: the table
+    after a successful solve no longer has horizon+1 rows (a mere extra column with horizon 0 is DRIFT).
   * GetSeriesList() is the mechanism, not the table: a wrong list alone is reported as DRIFT; the
     property is judged on the text of the tables.
 Names containing a tab or a newline are outside the explored space (no name of a model can).
@@ -182,8 +185,9 @@ def render_event(cls, src, holder, produce):
 # (a) replay of a TLC behaviour
 # --------------------------------------------------------------------------------------
 
-def solver_text(names, holder, block_h, rng):
-    """A well-posed block over the stored names (never a pure alias, no simultaneous loop)."""
+def solver_text(names, holder, block_h, conds, rng):
+    """A well-posed block over the stored names (never a pure alias, no simultaneous loop), with the
+    initial conditions of the history: conds = [(name, spaced)], on variables or on names without equation."""
     lines = []
     prev = None
     for n in names:
@@ -199,9 +203,10 @@ def solver_text(names, holder, block_h, rng):
         else:
             rhs = '%s + %r' % (prev, c0)
         lines.append('%s = %s' % (n, rhs.replace('+ -', '- ')))
-        if holder[n] and rng.random() < 0.7:
-            lines.append('%s(0) = %r' % (n, float(holder[n][0])))
         prev = n
+    for n, spaced in conds:
+        v = float(holder[n][0]) if n in holder and holder[n] else rand_float(rng)
+        lines.append('%s%s(0) = %r' % (n, ' ' if spaced else '', v))
     if block_h is not None:
         lines.append('MaxTime = %d' % block_h)
     return '\n'.join(lines)
@@ -243,10 +248,14 @@ def execute(beh, seed):
     holder = TimeSeriesHolder('k')
     table_of = holder
     stated = {}
+    conds = []
     for o in hist:
         op = o['op']
         name = name_of(o['name'])
-        if op == 'horizon':
+        if op == 'cond':
+            conds.append((name, bool(o.get('sp', False))))
+            ev = {'ev': 'Condition', 'name': o['name'], 'sp': bool(o.get('sp', False))}
+        elif op == 'horizon':
             if o['place'] not in ('block', 'solver'):
                 raise core.MachineryError('a replayed behaviour states the horizon in %r' % (o['place'],))
             stated[o['place']] = o['h']
@@ -290,7 +299,7 @@ def execute(beh, seed):
             ev = {'ev': 'Solve', 'used': -1, 'vs': [], 'must': True}
             solver = None
             try:
-                text = solver_text(list(holder.keys()), holder, stated.get('block'), rng)
+                text = solver_text(list(holder.keys()), holder, stated.get('block'), conds, rng)
                 solver = EquationSolver()
                 if 'solver' in stated:
                     solver.MaxTime = stated['solver']      # stated on the solver object, before the text is parsed
@@ -336,7 +345,10 @@ def model_specs(tier, rng):
              {'block_text': 'lagged', 'block': 5}, {'block_text': 'loop', 'block': 9, 'solver': 2},
              {'block_text': 'loop', 'block': 4, 'solver': 0}, {'block_text': 'mixed', 'solver': 1},
              {'block_text': 'plain'}, {'block_text': 'plain', 'solver': 0},
-             {'block_text': 'diverges', 'block': 4}]
+             {'block_text': 'diverges', 'block': 4},
+             {'block_text': 'lagged', 'block': 6, 'conds': [['z', False]]},            # left behind, no equation
+             {'block_text': 'loop', 'block': 3, 'conds': [['y', True], ['w', False]]},   # "y (0) = ..." and dangling
+             {'block_text': 'mixed', 'solver': 2, 'conds': [['A', False], ['k', False], ['a_b', True]]}]
     if tier != 'quick':
         specs += [{'model': 'SIM', 'block': 100}, {'model': 'SIM', 'block': 1}, {'model': 'SIM', 'block': 0},
                   {'model': 'SIMEX1', 'block': 40}, {'model': 'PC', 'block': 3}, {'model': 'PC', 'block': 60},
@@ -350,6 +362,9 @@ def model_specs(tier, rng):
                         spec['block'] = b
                     if sv is not None:
                         spec['solver'] = sv
+                    extra = rng.choice([None, [['zz', False]], [['x', True]], [['q', True], ['x', False]]])
+                    if extra is not None:
+                        spec['conds'] = extra
                     if spec not in specs:
                         specs.append(spec)
     return specs
@@ -379,6 +394,8 @@ def execute_model(spec, wd):
     logged = None
     ok = True
     is_model = 'model' in spec
+    for n, spaced in spec.get('conds', []):
+        events.append({'ev': 'Condition', 'name': codes(n), 'sp': bool(spaced)})
     if 'block' in spec:
         events.append({'ev': 'Horizon', 'place': 'model' if is_model else 'block', 'h': spec['block']})
     if 'solver' in spec:
@@ -406,6 +423,8 @@ def execute_model(spec, wd):
                         logged = f.read()
         else:
             text = BLOCKS[spec['block_text']]
+            for i, (n, spaced) in enumerate(spec.get('conds', [])):
+                text += '\n%s%s(0) = %r' % (n, ' ' if spaced else '', 2.5 + i)
             if 'block' in spec:
                 text += '\nMaxTime = %d' % spec['block']
             solver = EquationSolver()
@@ -464,7 +483,13 @@ def signature(clause, events):
     """What fails, from the first Render event the clause is false on (names the root cause)."""
     solved = None
     stated = {}
+    cond_keys = set()
+    variables = set()
     for ev in events:
+        if ev['ev'] == 'Condition':
+            cond_keys.add(name_of(ev['name']) + (' ' if ev['sp'] else ''))
+        if ev['ev'] == 'Put':
+            variables.add(name_of(ev['name']))
         if ev['ev'] == 'Horizon':
             stated['solver' if ev['place'] == 'solver' else 'block'] = ev['h']
         if ev['ev'] == 'Solve':
@@ -494,6 +519,10 @@ def signature(clause, events):
             if ev['ok'] and not ev['lens'] and ev['rows'] != 0:
                 return 'rows-without-series'
             if ev['ok'] and solved is not None and ev['rows'] != solved + 1:
+                short = [n for n, ln in zip(names, ev['lens']) if ln == ev['rows']]
+                if any(ln > ev['rows'] for ln in ev['lens']) and \
+                        any(n in cond_keys and n not in variables for n in short):
+                    return 'rows-cut-by-the-series-of-an-initial-condition-without-equation'
                 where = '+'.join(sorted(stated)) or 'nowhere'
                 return 'rows-differ-from-horizon+1-after-solve:horizon-stated-in-' + where + \
                     (':zero' if solved == 0 else '')
